@@ -157,7 +157,7 @@ def eval_doc(args):
 
 
 def run(tier, seed, open_findings):
-    rng = random.Random(seed); n = 300 if tier == 'thorough' else 80
+    rng = random.Random(seed); n = 4000 if tier == 'thorough' else 80
     docs = [gen(rng) for _ in range(n)]
     jobs = [(ver, d, seed * 1000 + i) for i, d in enumerate(docs) for ver in ('1.0', '1.1')]
     res = pmap(eval_doc, jobs)
